@@ -1,6 +1,7 @@
 package chain
 
 import (
+	"context"
 	"encoding/binary"
 	"fmt"
 	"math/rand"
@@ -25,6 +26,7 @@ type duty struct {
 	committee []common.ValidatorIndex
 	want      []bool
 	done      []bool
+	notBefore common.Slot // LateMode: planned earliest inclusion slot (0: none)
 }
 
 type depKind uint8
@@ -50,6 +52,25 @@ type builder struct {
 	// validators that are slashed or begin their exit inside this block
 	gone   map[common.ValidatorIndex]bool
 	active int
+	// Showcase: the proposer of an upcoming fork-boundary slot must stay unslashed and active
+	protected map[common.ValidatorIndex]bool
+	showcase  bool // this is a fork-boundary block of a Showcase chain
+}
+
+func (b *builder) count(key string) {
+	if b.step.extra == nil {
+		b.step.extra = map[string]int{}
+	}
+	b.step.extra[key]++
+}
+
+func (b *builder) fills(kind string) bool {
+	for _, k := range b.mix.Fill {
+		if k == kind {
+			return true
+		}
+	}
+	return false
 }
 
 func (c *Chain) rndRoot() (r common.Root) {
@@ -103,6 +124,18 @@ func (c *Chain) buildBlock(st common.BeaconState, epc *common.EpochsContext, slo
 		}
 	}
 
+	if c.Policy.Showcase {
+		_, b.showcase = forkBoundary(spec, slot)
+		if bd, ok := nextForkBoundary(spec, slot, spec.SLOTS_PER_EPOCH); ok {
+			// who proposes the fork-boundary block if nothing else happens? keep him unslashed and active
+			sim, sepc := WrapState(st), epc.Clone()
+			if err := common.ProcessSlots(context.Background(), spec, sepc, sim, bd); err == nil {
+				if pr, err := sepc.GetBeaconProposer(bd); err == nil {
+					b.protected = map[common.ValidatorIndex]bool{pr: true}
+				}
+			}
+		}
+	}
 	blk := NewBlock(b.fork)
 	hdr, body := blk.Header(), blk.Body()
 	*hdr.Slot, *hdr.ProposerIndex = slot, step.Proposer
@@ -198,7 +231,11 @@ func (c *Chain) submitDeposits(b *builder) {
 		}
 		return c.Keys.BLSCredentials(k)
 	}
-	for i := 0; i < b.mix.NewDeposits; i++ {
+	nNew := b.mix.NewDeposits
+	if b.fills("deposits") {
+		nNew = 2 * int(spec.MAX_DEPOSITS)
+	}
+	for i := 0; i < nNew; i++ {
 		k := c.nextKey
 		if len(c.burnedKeys) > 0 && rng.Intn(3) == 0 { // second, valid attempt of a key whose first deposit was refused
 			k, c.burnedKeys = c.burnedKeys[0], c.burnedKeys[1:]
@@ -296,6 +333,23 @@ func (b *builder) eth1Vote() (vote common.Eth1Data, effective common.Eth1Data, e
 	if vote == cur {
 		kind = "nochange"
 	}
+	if c.Policy.Showcase && vote != cur {
+		// time the votes so that the one that tips the majority is cast by the fork-boundary block
+		start := common.Slot(p * period)
+		if bd, ok := nextForkBoundary(spec, b.slot, start+common.Slot(period)-1-b.slot); ok && uint64(bd-start) >= period/2 {
+			votes, verr := b.st.Eth1DataVotes()
+			if verr != nil {
+				return vote, effective, verr
+			}
+			n, verr := votes.Count(vote)
+			if verr != nil {
+				return vote, effective, verr
+			}
+			if n >= period/2 { // one more would tip it too early
+				vote, kind = cur, "held"
+			}
+		}
+	}
 	if c.Rng.Float64() < b.mix.Eth1VoteNoise {
 		kind = "noise"
 		vote = common.Eth1Data{DepositRoot: c.rndRoot(), DepositCount: cur.DepositCount + common.DepositIndex(c.Rng.Intn(3)), BlockHash: c.rndRoot()}
@@ -356,7 +410,7 @@ func (b *builder) deposits(body BodyRef, eth1 common.Eth1Data) error {
 
 func (b *builder) slashable(v common.ValidatorIndex) bool {
 	f := &b.flats[v]
-	return !f.Slashed && !b.gone[v] && f.ActivationEpoch <= b.epoch && b.epoch < f.WithdrawableEpoch
+	return !f.Slashed && !b.gone[v] && !b.protected[v] && f.ActivationEpoch <= b.epoch && b.epoch < f.WithdrawableEpoch
 }
 
 // pickSlashable returns a random slashable validator whose loss the chain can afford.
@@ -398,7 +452,7 @@ func (c *Chain) SignHeader(st common.BeaconState, hd common.BeaconBlockHeader, k
 func (b *builder) proposerSlashings(body BodyRef) error {
 	c := b.c
 	n := b.mix.ProposerSlashings
-	if m := int(c.Spec.MAX_PROPOSER_SLASHINGS); n > m {
+	if m := int(c.Spec.MAX_PROPOSER_SLASHINGS); n > m || b.fills("proposer_slashings") {
 		n = m
 	}
 	for i := 0; i < n; i++ {
@@ -536,7 +590,7 @@ func (b *builder) honestData(a common.Slot, index common.CommitteeIndex) (phase0
 func (b *builder) attesterSlashings(body BodyRef) error {
 	c, rng := b.c, b.c.Rng
 	n := b.mix.AttesterSlashings
-	if m := int(c.Spec.MAX_ATTESTER_SLASHINGS); n > m {
+	if m := int(c.Spec.MAX_ATTESTER_SLASHINGS); n > m || b.fills("attester_slashings") {
 		n = m
 	}
 	for i := 0; i < n; i++ {
@@ -694,6 +748,9 @@ func (b *builder) dutiesOf(a common.Slot) ([]*duty, error) {
 		for j, v := range com {
 			d.want[j] = set[v]
 		}
+		if c.Policy.LateMode {
+			d.notBefore = b.planInclusion(a)
+		}
 		out = append(out, d)
 	}
 	c.duties[a] = out
@@ -708,6 +765,9 @@ func (b *builder) attestations(body BodyRef) error {
 	}
 	if b.slot == 0 || limit == 0 || b.mix.NoAttestations {
 		return nil
+	}
+	if c.Policy.LateMode {
+		return b.attestationsLate(body, limit)
 	}
 	// inclusion window
 	var lo common.Slot
@@ -737,7 +797,7 @@ func (b *builder) attestations(body BodyRef) error {
 			if len(pend) == 0 {
 				continue
 			}
-			if rng.Float64() < c.Policy.LateInclusionProb {
+			if rng.Float64() < c.Policy.LateInclusionProb && !b.showcase {
 				continue // held back; a later block may still take it
 			}
 			data, err := b.honestData(a, d.index)
@@ -802,18 +862,36 @@ func (c *Chain) SignExit(st common.BeaconState, ex phase0.VoluntaryExit, key int
 
 func (b *builder) exits(body BodyRef) error {
 	c, spec := b.c, b.c.Spec
+	if c.Policy.ExitAtEarliest {
+		// deposit-activated validators leave at the first moment they may
+		for i := range b.flats {
+			f := &b.flats[i]
+			v := common.ValidatorIndex(i)
+			if uint64(len(*body.VoluntaryExits)) >= uint64(spec.MAX_VOLUNTARY_EXITS) || b.active <= b.minActive() {
+				break
+			}
+			if f.ActivationEpoch > 0 && f.IsActive(b.epoch) && f.ExitEpoch == common.FAR_FUTURE_EPOCH && !b.gone[v] && !b.protected[v] &&
+				b.epoch == f.ActivationEpoch+spec.SHARD_COMMITTEE_PERIOD {
+				ex := phase0.VoluntaryExit{Epoch: b.epoch, ValidatorIndex: v}
+				b.op(OpInfo{Kind: OpExit, Index: len(*body.VoluntaryExits), Detail: "at-earliest", Validators: []common.ValidatorIndex{v}})
+				*body.VoluntaryExits = append(*body.VoluntaryExits, c.SignExit(b.st, ex, b.key(v)))
+				b.markGone(v)
+			}
+		}
+	}
 	n := b.mix.Exits
-	if m := int(spec.MAX_VOLUNTARY_EXITS); n > m {
+	if m := int(spec.MAX_VOLUNTARY_EXITS); n > m || b.fills("exits") {
 		n = m
 	}
-	if n == 0 {
+	n -= len(*body.VoluntaryExits)
+	if n <= 0 {
 		return nil
 	}
 	var cand []common.ValidatorIndex
 	for i := range b.flats {
 		f := &b.flats[i]
 		v := common.ValidatorIndex(i)
-		if f.IsActive(b.epoch) && f.ExitEpoch == common.FAR_FUTURE_EPOCH && !b.gone[v] && b.epoch >= f.ActivationEpoch+spec.SHARD_COMMITTEE_PERIOD {
+		if f.IsActive(b.epoch) && f.ExitEpoch == common.FAR_FUTURE_EPOCH && !b.gone[v] && !b.protected[v] && b.epoch >= f.ActivationEpoch+spec.SHARD_COMMITTEE_PERIOD {
 			cand = append(cand, v)
 		}
 	}
@@ -824,9 +902,9 @@ func (b *builder) exits(body BodyRef) error {
 		if back := common.Epoch(c.Rng.Intn(3)); back <= ex.Epoch {
 			ex.Epoch -= back
 		}
+		b.op(OpInfo{Kind: OpExit, Index: len(*body.VoluntaryExits), Validators: []common.ValidatorIndex{v}})
 		*body.VoluntaryExits = append(*body.VoluntaryExits, c.SignExit(b.st, ex, b.key(v)))
 		b.markGone(v)
-		b.op(OpInfo{Kind: OpExit, Index: i, Validators: []common.ValidatorIndex{v}})
 	}
 	return nil
 }
@@ -841,7 +919,7 @@ func (c *Chain) SignBLSChange(ch common.BLSToExecutionChange, k int) common.Sign
 func (b *builder) blsChanges(body BodyRef) error {
 	c := b.c
 	n := b.mix.BLSChanges
-	if m := int(c.Spec.MAX_BLS_TO_EXECUTION_CHANGES); n > m {
+	if m := int(c.Spec.MAX_BLS_TO_EXECUTION_CHANGES); n > m || b.fills("bls_changes") {
 		n = m
 	}
 	if n == 0 {
@@ -1001,7 +1079,15 @@ func (b *builder) fillPayload(blk *SignedBlock, body BodyRef) error {
 	}
 	*p.ExtraData = common.ExtraData("verif")
 	*p.BaseFeePerGas = view.Uint256View{7 + uint64(rng.Intn(100))}
-	for i := 0; i < b.mix.Transactions; i++ {
+	nTx, nBlobs := b.mix.Transactions, b.mix.Blobs
+	if b.mix.PayloadEdge {
+		ed := make(common.ExtraData, []int{0, 31, common.MAX_EXTRA_DATA_BYTES}[rng.Intn(3)])
+		rng.Read(ed)
+		*p.ExtraData = ed
+		nTx = []int{0, 0, 3 + rng.Intn(4)}[rng.Intn(3)]
+		nBlobs = []int{0, int(spec.MAX_BLOBS_PER_BLOCK)}[rng.Intn(2)]
+	}
+	for i := 0; i < nTx; i++ {
 		tx := make(common.Transaction, 1+rng.Intn(40))
 		rng.Read(tx)
 		*p.Transactions = append(*p.Transactions, tx)
@@ -1023,7 +1109,7 @@ func (b *builder) fillPayload(blk *SignedBlock, body BodyRef) error {
 		}
 	}
 	if b.fork >= Deneb {
-		n := b.mix.Blobs
+		n := nBlobs
 		if m := int(spec.MAX_BLOBS_PER_BLOCK); n > m {
 			n = m
 		}
@@ -1072,6 +1158,15 @@ func (c *Chain) commit(work common.BeaconState, epc *common.EpochsContext, step 
 		if o.Detail != "" {
 			ct.Ops[string(o.Kind)+":"+o.Detail]++
 		}
+		if o.Kind == OpAttestation {
+			ct.Ops["att_delay:"+delayBucket(spec, common.Slot(o.Count))]++
+		}
+	}
+	for k, v := range step.extra {
+		ct.Ops[k] += v
+	}
+	if step.Block != nil {
+		c.countShapes(step)
 	}
 	if step.Fork != c.lastFork {
 		ct.Upgrades += int(step.Fork - c.lastFork)
@@ -1177,4 +1272,103 @@ func (c *Chain) commit(work common.BeaconState, epc *common.EpochsContext, step 
 func rngFor(seed int64, label string) *rand.Rand {
 	h := hashing.Hash(append([]byte(label), byte(seed), byte(seed>>8), byte(seed>>16), byte(seed>>24), byte(seed>>32), byte(seed>>40), byte(seed>>48), byte(seed>>56)))
 	return rand.New(rand.NewSource(int64(binary.LittleEndian.Uint64(h[:8]))))
+}
+
+// countShapes records the unusual-but-valid block shapes a block has (round-2 counters): lists at exactly
+// their maximum, payload fields at their limits, fork-boundary blocks and what they carry.
+func (c *Chain) countShapes(step *Step) {
+	spec, ct := c.Spec, &c.Counters
+	body := step.Block.Body()
+	full := func(name string, n int, max view.Uint64View) {
+		if n > 0 && uint64(n) == uint64(max) {
+			ct.Ops["block_full:"+name]++
+		}
+	}
+	full("proposer_slashings", len(*body.ProposerSlashings), spec.MAX_PROPOSER_SLASHINGS)
+	full("attester_slashings", len(*body.AttesterSlashings), spec.MAX_ATTESTER_SLASHINGS)
+	full("attestations", len(*body.Attestations), spec.MAX_ATTESTATIONS)
+	full("deposits", len(*body.Deposits), spec.MAX_DEPOSITS)
+	full("exits", len(*body.VoluntaryExits), spec.MAX_VOLUNTARY_EXITS)
+	if body.BLSChanges != nil {
+		full("bls_changes", len(*body.BLSChanges), spec.MAX_BLS_TO_EXECUTION_CHANGES)
+	}
+	if p := body.Payload; p != nil && *p.BlockHash != (common.Hash32{}) {
+		if p.Withdrawals != nil {
+			full("withdrawals", len(*p.Withdrawals), spec.MAX_WITHDRAWALS_PER_PAYLOAD)
+		}
+		switch n := len(*p.ExtraData); n {
+		case 0, 31, common.MAX_EXTRA_DATA_BYTES:
+			ct.Ops[fmt.Sprintf("extra_data:%d", n)]++
+		}
+		switch n := len(*p.Transactions); {
+		case n == 0:
+			ct.Ops["txs:0"]++
+		case n >= 3:
+			ct.Ops["txs:many"]++
+		}
+		if body.BlobKZGCommitments != nil {
+			full("blobs", len(*body.BlobKZGCommitments), spec.MAX_BLOBS_PER_BLOCK)
+		}
+	}
+	if f, ok := forkBoundary(spec, step.Slot); ok {
+		ct.Ops["fork_boundary_block:"+f.String()]++
+		has := map[OpKind]bool{}
+		for _, o := range step.Ops {
+			if o.Kind == OpSyncAggregate && o.Count == 0 {
+				continue
+			}
+			has[o.Kind] = true
+		}
+		missing := ""
+		need := []OpKind{OpProposerSlashing, OpAttesterSlashing, OpAttestation, OpExit}
+		if f >= Altair {
+			need = append(need, OpSyncAggregate)
+		}
+		if f >= Capella {
+			need = append(need, OpBLSChange)
+		}
+		for _, k := range need {
+			if !has[k] {
+				missing += " " + string(k)
+				ct.Ops["fork_boundary_missing:"+string(k)]++
+			}
+		}
+		if !has[OpDepositNew] && !has[OpDepositTopUp] && !has[OpDepositBadPoP] {
+			missing += " deposit"
+			ct.Ops["fork_boundary_missing:deposit"]++
+		}
+		if missing == "" {
+			ct.Ops["fork_boundary_complete:"+f.String()]++
+		}
+	}
+}
+
+// forkBoundary tells whether slot is the first slot of a fork epoch (> 0) and of which fork (the last one if
+// several forks share the epoch).
+func forkBoundary(spec *common.Spec, slot common.Slot) (Fork, bool) {
+	if slot == 0 || slot%spec.SLOTS_PER_EPOCH != 0 {
+		return 0, false
+	}
+	e := spec.SlotToEpoch(slot)
+	f, ok := Phase0, false
+	for i, fe := range ForkEpochs(spec) {
+		if fe == e {
+			f, ok = Fork(i+1), true
+		}
+	}
+	return f, ok
+}
+
+// nextForkBoundary returns the first fork-boundary slot in (from, from+within].
+func nextForkBoundary(spec *common.Spec, from common.Slot, within common.Slot) (common.Slot, bool) {
+	for _, fe := range ForkEpochs(spec) {
+		if fe == Never || fe == 0 || uint64(fe) > 1<<40 {
+			continue
+		}
+		b := common.Slot(fe) * spec.SLOTS_PER_EPOCH
+		if b > from && b <= from+within {
+			return b, true
+		}
+	}
+	return 0, false
 }
